@@ -32,6 +32,12 @@ def generate(rng, tier, i):
     entry = rng.choice(["tree", "tree", "text", "file"])
     if not d["regions"] and rng.random() < 0.5:
         entry = "string"
+    if not d["fixed"] and rng.random() < 0.15:
+        # an attached netlist that contributes no fixed rectangle (terminals / soft modules only)
+        mods = {"T0": {"terminal": True, "center": [0.0, d["H"] / 2]}, "T1": {"terminal": True}}
+        if rng.random() < 0.5:
+            mods["S0"] = {"area": (min(d["W"], d["H"]) / 4) ** 2, "center": [d["W"] / 2, d["H"] / 2]}
+        d["netlist"] = {"Modules": mods, "Nets": [["T0", "T1"]]}
     if i % 5 == 4:
         bad = gd.inject_defect(rng, d, gd.INVALID[(i // 5) % len(gd.INVALID)])
         if bad is not None:
@@ -42,7 +48,7 @@ def generate(rng, tier, i):
 
 
 def _slim(d):
-    return {k: d[k] for k in ("fam", "W", "H", "regions", "fixed", "struct", "extra_keys") if k in d}
+    return {k: d[k] for k in ("fam", "W", "H", "regions", "fixed", "struct", "extra_keys", "netlist") if k in d}
 
 
 def directed():
@@ -50,6 +56,9 @@ def directed():
         {"cls": "valid", "die": {"fam": "dec_0.1", "W": 0.6, "H": 0.3, "regions": [[0.25, 0.2, 0.5, 0.2, "#"]], "fixed": {}, "struct": "directed"}, "entry": "tree"},
         {"cls": "valid", "die": {"fam": "dec_0.1", "W": 0.6, "H": 0.3, "regions": [[0.25, 0.2, 0.5, 0.2, "#"]], "fixed": {}, "struct": "directed"}, "entry": "text"},
         {"cls": "valid", "die": {"fam": "dec_0.1", "W": 1.1, "H": 0.7, "regions": [[1.0, 0.35, 0.2, 0.7, "LUT"]], "fixed": {}, "struct": "directed"}, "entry": "tree"},
+        # attached netlist without any rectangle or area (terminals only): the tolerance became infinite and the die was rejected
+        {"cls": "valid", "die": {"fam": "half", "W": 3.5, "H": 1.5, "regions": [[0.5, 0.5, 1.0, 1.0, "#"]], "fixed": {}, "struct": "directed",
+                                 "netlist": {"Modules": {"T0": {"terminal": True, "center": [0.0, 0.5]}, "T1": {"terminal": True}}, "Nets": [["T0", "T1"]]}}, "entry": "tree"},
     ]
 
 
